@@ -74,6 +74,9 @@ func runC13(c *Ctx, r *Report) {
 	r.Rule("C13/op-options-applied", "generic.NewOperation applies the full per-operation option list (stop-on-failed, failure strings) in order", 1)
 	r.Rule("C13/opts-forwarded", "every generic- and network-driver operation hands its full per-operation option list to each option-taking library callee", 5)
 	r.Rule("C13/stop", "every response appended before the stop test; early success only under StopOnFailed && Failed != nil; no command after it", 2)
+	importFoundation(c, r, "C13", "ansi")
+	r.Rule("C13/post-process", "(restated from C01) processOut removes the prompt line only: text of the answer that follows a prompt-like line -- the device's error message -- stays in the result the failure strings are looked for in", 3)
+	importObligations(r, func(sub *Report) { checkProcessOut(c, sub) }, "C01/post-process", "C13/post-process")
 	r.Rule("C13/failed-types-agree", "every concrete type stored to Response.Failed is one MultiResponse.AppendResponse asserts when it decides whether a member failed", 1)
 	checkFailedTypesAgree(c, r, "C13/failed-types-agree")
 	r.Rule("C13/aggregate", "AppendResponse appends on every path and records member failures; SendConfig copies Failed and joins members' results", 4)
